@@ -37,7 +37,40 @@ RAW = [
     (200, [["Set-Cookie", "a=1"], ["Set-Cookie", "b=2"]], [b"c"], "list"),
     (200, [["Vary", "Accept"], ["vary", "Cookie"]], [b"c"], "list"),
     (500, [["Content-Type", "text/plain"]], [b"err"], "gen"),
+    # the application starts a 200, fails before producing any body and replaces its response through
+    # start_response(status, headers, exc_info) (PEP 3333); ASGI side: the plain error response
+    (503, [["Content-Type", "text/plain"], ["Retry-After", "3"]], [b"unavailable"], "restart-list"),
+    (500, [["Content-Type", "text/plain"]], [b"oops", b"!"], "restart-gen"),
 ]
+
+# bodies around the relay's spool limit (CachedStream.spool_max_size = 1 MiB).  Every chunk is a run of one byte value,
+# neighbouring chunks use different values: bodies travel run-length encoded (rle) on both sides of the comparison.
+MIB = 1024 * 1024
+BIG = [
+    (200, [["Content-Type", "application/octet-stream"]], [bytes([65 + i]) * 65536 for i in range(17)], "gen"),
+    (200, [["Content-Type", "application/octet-stream"]], [b"p" * (MIB + 1)], "list"),
+    (200, [["Content-Type", "application/octet-stream"]], [b"q" * MIB], "list"),
+    (200, [["Content-Type", "application/octet-stream"]], [b"r" * (MIB - 1), b"s", b"t" * 70000], "gen"),
+    (206, [["Content-Type", "application/octet-stream"]], [b"u" * 300000, b"v" * 300000, b"w" * 300000, b"z" * 300000], "tuple"),
+]
+
+
+def rle(b):
+    """injective on the bodies used here (no NUL bytes): runs of >= 256 equal bytes become NUL{<byte><count>}NUL"""
+    if len(b) < 4096 or b"\x00" in b:
+        return b
+    out, i, n = bytearray(), 0, len(b)
+    while i < n:
+        j = i
+        c = b[i]
+        while j < n and b[j] == c:
+            j += 1
+        if j - i >= 256:
+            out += b"\x00{" + bytes([c]) + str(j - i).encode() + b"}\x00"
+        else:
+            out += b[i:j]
+        i = j
+    return bytes(out)
 
 
 def inner_cases(tier, rng):
@@ -47,6 +80,8 @@ def inner_cases(tier, rng):
         yield ["recipe", r]
     for raw in RAW:
         yield ["raw", list(raw)]
+    for raw in BIG:
+        yield ["big", list(raw)]
     yield ["zerocopy", c02.mk(False, None, None, 7, 3)]
     yield ["zerocopy", c02.mk(False, "bytes=1-3", None, 7, 3)]
 
@@ -54,6 +89,8 @@ def inner_cases(tier, rng):
 def cases(tier, rng):
     for inner in inner_cases(tier, rng):
         for st in STACKS:
+            if inner[0] == "big" and st not in ([], [None], [None, None, None], [["X-Added", "1"]]):
+                continue
             if tier == "quick" and inner[0] == "recipe" and len(st) == 3 and st[0] is None and inner[1][0] in ("plain", "redirect"):
                 continue
             yield inner[0], [inner, st]
@@ -84,6 +121,8 @@ def inner_app(inner, iface, counter):
                 return await resp.build(recipe, "asgi")(scope, receive, send)
         return app
     status, headers, chunks, container = inner[1]
+    if container.startswith("restart") and iface == "asgi":
+        container = "gen"
     from http import HTTPStatus
     try:
         line = "%d %s" % (status, HTTPStatus(status).phrase)
@@ -92,6 +131,23 @@ def inner_app(inner, iface, counter):
     if iface == "wsgi":
         def app(environ, start_response):
             counter.n += 1
+            if container.startswith("restart"):
+                def fail():
+                    start_response("200 OK", [("Content-Type", "text/html"), ("X-Early", "1")])
+                    try:
+                        raise ValueError("failed before any body")
+                    except ValueError:
+                        import sys
+                        start_response(line, [tuple(h) for h in headers], sys.exc_info())
+                if container == "restart-list":
+                    fail()
+                    return list(chunks)
+
+                def rg():
+                    fail()
+                    for c in chunks:
+                        yield c
+                return rg()
             if container == "gen":
                 def g():
                     start_response(line, [tuple(h) for h in headers])
@@ -148,13 +204,53 @@ def request_for(inner):
 
 def run_wsgi(app, inner):
     method, hs = request_for(inner)
-    starts, items, exc = util.call_wsgi(app, util.wsgi_environ(method, headers=hs))
+    starts, items, exc = call_wsgi_server(app, util.wsgi_environ(method, headers=hs))
     if exc is not None:
         return ["exc", type(exc).__name__, str(exc)[:80]]
     if len(starts) != 1:
         return ["starts", len(starts)]
     status, headers = starts[0]
-    return [int(status.split(" ")[0]), sorted([k.lower(), v] for k, v in headers), b"".join(x for _, x in items)]
+    return [int(status.split(" ")[0]), sorted([k.lower(), v] for k, v in headers), enc_body(inner, b"".join(items))]
+
+
+def enc_body(inner, b):
+    return rle(b) if inner[0] == "big" else b
+
+
+def call_wsgi_server(app, environ):
+    """What a conforming WSGI server does (PEP 3333): a repeated start_response is an error unless it carries exc_info;
+    with exc_info it replaces status and headers while no body byte has gone out, and re-raises otherwise.
+    returns (effective [(status, headers)], body items, exception or None)"""
+    starts, items, sent = [], [], [False]
+
+    def start_response(status, headers, exc_info=None):
+        if exc_info is not None:
+            try:
+                if sent[0]:
+                    raise exc_info[1].with_traceback(exc_info[2])
+            finally:
+                exc_info = None
+            del starts[:]
+        elif starts:
+            raise AssertionError("start_response called twice without exc_info")
+        starts.append((status, list(headers)))
+
+    exc = None
+    try:
+        it = app(environ, start_response)
+        try:
+            for x in it:
+                if x:
+                    if not starts:
+                        raise AssertionError("body before start_response")
+                    sent[0] = True
+                items.append(x)
+        finally:
+            if hasattr(it, "close"):
+                it.close()
+    except BaseException as e:  # noqa
+        exc = e
+    return starts, items, exc
 
 
 def run_asgi(app, inner, raw_events=False):
@@ -168,10 +264,10 @@ def run_asgi(app, inner, raw_events=False):
         return ["nostart"]
     hl = sorted([k.decode("latin-1").lower(), v.decode("latin-1")] for k, v in sent[0].get("headers", []))
     if raw_events:
-        evs = [["z", m["bytes"]] if m["type"] == "http.response.zerocopysend" else ["c", m.get("body", b"")] for m in sent[1:]]
+        evs = [["z", m["bytes"]] if m["type"] == "http.response.zerocopysend" else ["c", enc_body(inner, m.get("body", b""))] for m in sent[1:]]
         return [int(sent[0]["status"]), hl, evs]
     body = b"".join(m["bytes"] if m["type"] == "http.response.zerocopysend" else m.get("body", b"") for m in sent[1:])
-    return [int(sent[0]["status"]), hl, body]
+    return [int(sent[0]["status"]), hl, enc_body(inner, body)]
 
 
 _bare_cache = {}
